@@ -19,6 +19,8 @@ META.update({
     "out": c11.META["out"] + ["a worker killed while its feeder thread holds the queue's write lock: the surviving workers then block "
                              "forever and the parent keeps waiting (a real hang that a model with atomic deliveries cannot see)"],
 })
+META["explanation"] += ("  The model queue has the signature of multiprocessing.Queue.get(block=True, timeout=None): a positional number is `block`, "
+                        "and a blocking get with nothing left to arrive is a hang.  Records alternate between realigned and passed-through kinds as in C11.")
 
 CONFIGS = {
     "quick": [(1, 1, 1, 1), (1, 2, 2, 1), (1, 1, 2, 1), (2, 1, 1, 1), (2, 1, 2, 0)],
